@@ -445,12 +445,12 @@ impl MqttState {
         }
         self.incoming_pub.set(pubrel.pkid as usize, false);
 
+        // [MQTT-4.3.3-11]: a PUBREL is answered by a PUBCOMP whatever its reason code says
         if pubrel.reason != PubRelReason::Success {
             warn!(
                 "PubRel Pkid = {:?}, reason: {:?}",
                 pubrel.pkid, pubrel.reason
             );
-            return Ok(None);
         }
 
         let event = Event::Outgoing(Outgoing::PubComp(pubrel.pkid));
